@@ -4,6 +4,7 @@ import (
 	"fmt"
 	"go/token"
 	"go/types"
+	"sort"
 	"strings"
 
 	"adgverif/an"
@@ -24,7 +25,7 @@ func init() {
 				"of every fallible step that precedes it in its function, and every such step's error is checked; addRuleList keeps " +
 				"the previous list on each error edge. R4: the index conversion skips invalid entries and keeps converting the rest.",
 			NotCovered: "behaviour of the HTTP client under each fault kind; atomicity of renameio itself (trusted); disk-full and fsync semantics.",
-			Rules: map[string]string{"C13-R15": "loadIndex (rule lists and blocked services): any load or decoding error rejects the whole index", "C13-R14": "builder wiring of the hash-prefix filters: own ID, cache file, storage and URL each (shared with C11-R11)", "C13-RC": "class rules (error chains, shadowed results, character classes, crossed arguments, pool constructors, array pools, loop completeness, loop-carried buffers, replacing setters, complete clones, Grow arithmetic, pooled-buffer escape, sorted searches, fresh decode targets, per-iteration objects, whole-message copies, codec guards) over the packages this property rests on", "C13-R13": "loadIndex only sorts the decoded entries; none is removed before validation", "C13-R12": "in-place list refresh: engine swap and cache clear under one write lock; same-typed arguments (acceptStale vs cache switches) are not crossed", "C13-R11": "the periodic refresh worker: the loop ends only on shutdown, refreshes on every uninterrupted tick, survives a failed refresh; shutdown refresh exactly when configured; constructor field map", "C13-R9": "an index key is converted to filter.ID only where the same field is validated by filter.NewID in the package", "C13-R10": "components with RefreshInitial are started through it in package cmd, never through their periodic Refresh", "C13-R1": "download / replace protocol tables", "C13-R2": "who may mutate files",
+			Rules: map[string]string{"C13-R16": "a consumer that can reject downloaded text does so before the text replaces the cache file (otherwise the rejected file is what the next start loads)", "C13-R15": "loadIndex (rule lists and blocked services): any load or decoding error rejects the whole index", "C13-R14": "builder wiring of the hash-prefix filters: own ID, cache file, storage and URL each (shared with C11-R11)", "C13-RC": "class rules (error chains, shadowed results, character classes, crossed arguments, pool constructors, array pools, loop completeness, loop-carried buffers, replacing setters, complete clones, Grow arithmetic, pooled-buffer escape, sorted searches, fresh decode targets, per-iteration objects, whole-message copies, codec guards) over the packages this property rests on", "C13-R13": "loadIndex only sorts the decoded entries; none is removed before validation", "C13-R12": "in-place list refresh: engine swap and cache clear under one write lock; same-typed arguments (acceptStale vs cache switches) are not crossed", "C13-R11": "the periodic refresh worker: the loop ends only on shutdown, refreshes on every uninterrupted tick, survives a failed refresh; shutdown refresh exactly when configured; constructor field map", "C13-R9": "an index key is converted to filter.ID only where the same field is validated by filter.NewID in the package", "C13-R10": "components with RefreshInitial are started through it in package cmd, never through their periodic Refresh", "C13-R1": "download / replace protocol tables", "C13-R2": "who may mutate files",
 				"C13-R3": "commit only after success", "C13-R4": "invalid index entries skipped, not aborting",
 				"C13-R7": "exact HTTP status check; only the size-limited reader that fails at the limit is used on a list's path",
 				"C13-R6": "blocked-service index: any invalid entry rejects the whole update",
@@ -240,6 +241,8 @@ func runC13(c *an.Ctx) {
 	c.Borrow("C13-R14", runC11, func(o an.Obligation) bool { return o.Rule == "C11-R11" })
 	c.Floor("C13-R15", 2)
 	c13IndexDecode(c)
+	c.Floor("C13-R16", 4)
+	c13AcceptedBeforeCommit(c)
 	// ---- R10: the storage (and every other component with a RefreshInitial) is started from what is cached
 	if n := sharedInitialRefresh(c, "C13-R10"); n < 4 {
 		c.Und("C13-R10", "start-up refreshes", token.NoPos, "only %d RefreshInitial calls found in package cmd (expected the rule-list storage and the three hash-prefix filters)", n)
@@ -1089,4 +1092,202 @@ func c13IndexDecode(c *an.Ctx) {
 			},
 		})
 	}
+}
+
+// c13AcceptedBeforeCommit: refreshFromURL replaces the cache file as soon as a
+// non-empty body of acceptable size has arrived.  A consumer that can still
+// reject that text afterwards (a decoder, a scanner) keeps its previous state
+// in memory, but the rejected text is what a restart will load (RefreshInitial
+// accepts the cache file whatever its age).  Unless the download routine hands
+// the text to the consumer before it returns success, every consumer whose
+// error result depends on the text is such a site.
+func c13AcceptedBeforeCommit(c *an.Ctx) {
+	const rule = "C13-R16"
+	const refrKey = "filter/internal/refreshable.(*Refreshable).refreshFromURL"
+	refr := c.Fn(refrKey)
+	if refr == nil {
+		c.Und(rule, "download routine", token.NoPos, "anchor %s not found", refrKey)
+		return
+	}
+	c.Analysed(refrKey)
+	// a say for the consumer: a dynamic call (function-typed field or interface method of the refreshable) that is
+	// given the text or its bytes before the routine returns
+	hook := ""
+	for _, call := range an.Calls(refr) {
+		if an.StaticCallee(call) != nil || call.Common().IsInvoke() && len(call.Common().Args) == 0 {
+			continue
+		}
+		if _, isGo := call.(*ssa.Go); isGo {
+			continue
+		}
+		for _, a := range call.Common().Args {
+			if b, ok := a.Type().Underlying().(*types.Basic); ok && b.Kind() == types.String {
+				hook = c.Prog.Pos(call.Pos())
+			} else if s, ok := a.Type().Underlying().(*types.Slice); ok && isBasicKind(s.Elem(), types.Uint8) {
+				hook = c.Prog.Pos(call.Pos())
+			}
+		}
+	}
+	// the calls whose error does not depend on the text
+	contentIndependent := map[string]string{
+		"filterlist.NewRuleStorage": "fails only for two lists with the same ID; the text is compiled lazily, rule by rule, and bad rules are skipped",
+	}
+	n := 0
+	for _, fn := range c.Prog.AllFns {
+		if !c.Prog.InRepo(fn) || c.Prog.IsTestFile(fn.Pos()) || !strings.HasPrefix(an.FnKey(fn), "filter/") {
+			continue
+		}
+		for _, call := range an.Calls(fn) {
+			if !strings.HasSuffix(an.CalleeName(call), "refreshable.Refreshable).Refresh") {
+				continue
+			}
+			cv, ok := call.(*ssa.Call)
+			if !ok {
+				continue
+			}
+			n++
+			c.Analysed(an.FnKey(fn))
+			key := an.FnKey(fn) + " cannot reject a download that has already replaced the cache file"
+			rejects := c13TextRejections(fn, cv)
+			var bad []string
+			for _, r := range rejects {
+				name := an.CalleeName(r)
+				exc := false
+				for suffix, why := range contentIndependent {
+					if strings.HasSuffix(name, suffix) {
+						exc = true
+						c.Except(rule, name+" in "+an.FnKey(fn), why)
+					}
+				}
+				if !exc {
+					bad = append(bad, fmt.Sprintf("%s (%s)", an.Short(name), c.Prog.Pos(r.Pos())))
+				}
+			}
+			sort.Strings(bad)
+			switch {
+			case len(bad) == 0:
+				c.Ok(rule, key, call.Pos(), "no step after the download can fail on the text (%d fallible steps fed by it, all independent of its content)", len(rejects))
+			case hook != "":
+				c.Ok(rule, key, call.Pos(), "the download routine hands the text to the consumer before it returns (%s); later rejections: %s", hook, strings.Join(bad, ", "))
+			default:
+				c.Bad(rule, key, call.Pos(), "the text is rejected after refreshFromURL has committed it: %s; the rejected file is what the next start loads (acceptStale)", strings.Join(bad, ", "))
+			}
+		}
+	}
+	if n < 4 {
+		c.Und(rule, "consumers of the refreshable", token.NoPos, "only %d callers of (*Refreshable).Refresh found in the filter packages (expected rule lists, hash prefixes and the two indexes)", n)
+	}
+}
+
+func isBasicKind(t types.Type, k types.BasicKind) bool {
+	b, ok := t.Underlying().(*types.Basic)
+	return ok && b.Kind() == k
+}
+
+// c13TextRejections returns the calls in fn that are fed (directly or through
+// values built from it) by the first result of call and have an error result
+// that is used.
+func c13TextRejections(fn *ssa.Function, call *ssa.Call) (out []ssa.CallInstruction) {
+	tainted := map[ssa.Value]bool{}
+	root := func(v ssa.Value) ssa.Value {
+		for {
+			switch x := v.(type) {
+			case *ssa.FieldAddr:
+				v = x.X
+			case *ssa.IndexAddr:
+				v = x.X
+			case *ssa.Slice:
+				v = x.X
+			case *ssa.ChangeType:
+				v = x.X
+			case *ssa.MakeInterface:
+				v = x.X
+			default:
+				return v
+			}
+		}
+	}
+	for _, r := range *call.Referrers() {
+		if ex, ok := r.(*ssa.Extract); ok && ex.Index == 0 {
+			tainted[ex] = true
+		}
+	}
+	isT := func(v ssa.Value) bool { return tainted[v] || tainted[root(v)] }
+	seen := map[ssa.CallInstruction]bool{}
+	for changed := true; changed; {
+		changed = false
+		mark := func(v ssa.Value) {
+			if !tainted[v] {
+				tainted[v] = true
+				changed = true
+			}
+		}
+		an.Instrs(fn, func(in ssa.Instruction) {
+			switch x := in.(type) {
+			case *ssa.Store:
+				if isT(x.Val) {
+					mark(root(x.Addr))
+				}
+			case *ssa.UnOp:
+				if isT(x.X) {
+					mark(x)
+				}
+			case *ssa.Phi:
+				for _, e := range x.Edges {
+					if isT(e) {
+						mark(x)
+					}
+				}
+			case *ssa.Convert:
+				if isT(x.X) {
+					mark(x)
+				}
+			case *ssa.ChangeType:
+				if isT(x.X) {
+					mark(x)
+				}
+			case *ssa.MakeInterface:
+				if isT(x.X) {
+					mark(x)
+				}
+			case *ssa.Slice:
+				if isT(x.X) {
+					mark(x)
+				}
+			case *ssa.Extract:
+				if isT(x.Tuple) && !isErrorType(x.Type()) {
+					mark(x)
+				}
+			case *ssa.Call:
+				if x == call {
+					return
+				}
+				fed := false
+				for _, a := range x.Common().Args {
+					if isT(a) {
+						fed = true
+					}
+				}
+				if x.Common().IsInvoke() && isT(x.Common().Value) {
+					fed = true
+				}
+				if !fed {
+					return
+				}
+				if strings.Contains(an.CalleeName(x), "slog.Logger)") || strings.HasPrefix(an.CalleeName(x), "fmt.") {
+					return
+				}
+				if !isErrorType(x.Type()) {
+					mark(x)
+				}
+				if ev, has := errorResult(x); has && ev != nil && !seen[x] {
+					if refs := ev.Referrers(); refs != nil && len(*refs) > 0 {
+						seen[x] = true
+						out = append(out, x)
+					}
+				}
+			}
+		})
+	}
+	return out
 }
